@@ -121,6 +121,22 @@ int main(int argc, char** argv) {
         static const std::string big = "%a " + std::string(700, '-') + " %c%c%c%c";
         VT_GUARD(ubh, (void)detail::format(big, tp, detail::femtoseconds(0), tz); o2 = detail::format(fmt, tp, detail::femtoseconds(fs), tz));
         if (ubh || o2 != o) hist = 0;
+        // ... and after unrelated PARSE calls that go through the week-number code (%U, %W) for the same and for another year
+        if (hist) {
+          static const char* kWk[] = {"%Y-%U-%w", "%Y-%W-%u"};
+          for (const char* wf : kWk) {
+            std::string o3;
+            VT_GUARD(ubh, {
+              TP pt; detail::femtoseconds pf(0);
+              std::string wt = detail::format(wf, tp, detail::femtoseconds(0), tz);
+              (void)detail::parse(wf, wt, tz, &pt, &pf);
+              (void)detail::parse(wf, "2017-01-0", tz, &pt, &pf);
+              (void)detail::parse(wf, wt, tz, &pt, &pf);
+              o3 = detail::format(fmt, tp, detail::femtoseconds(fs), tz);
+            });
+            if (ubh || o3 != o) hist = 0;
+          }
+        }
       }
       if (tag == "F" && !ub && hist && (k % 3 == 0 || samples.size() < 600) && samples.size() < 6000 && !reads_libc_zone(fmt))
         samples.push_back(Sample{fmt, tp, fs, &tz, o});
